@@ -22,8 +22,8 @@ def subNowait (i b n : Nat) (sev : Sev) (mk : Bool) : List (Tid × Act) :=
   [(.sub i, .markDone), (.sub i, .qAcquire), (.sub i, .append), (.sub i, .qRelease), (.sub i, .signal)]
 
 /-- the resolver takes one request of `n` items through to free -/
-def workOne (n : Nat) (first : Bool) : List (Tid × Act) :=
-  [(.worker, if first then .wkAcquire else .wkReacquire), (.worker, .wkPop), (.worker, .wkRelease)] ++
+def workOne (b n : Nat) (first : Bool) : List (Tid × Act) :=
+  [(.worker, if first then .wkAcquire else .wkReacquire), (.worker, .wkPop b), (.worker, .wkRelease)] ++
   List.replicate n (.worker, .wkResolve) ++ [(.worker, .wkAll), (.worker, .wkNotify), (.worker, .wkFree)]
 
 def gaEx : Nat → Int := fun k => if k = 2 then -2 else 0
@@ -32,13 +32,13 @@ def gaEx : Nat → Int := fun k => if k = 2 then -2 else 0
     submitter 1 posts batch 7, the resolver handles two items of it while submitter 2 posts batch 9 -/
 def schedA : List (Tid × Act) :=
   subNowait 1 7 3 .thread true ++
-  [(.worker, .wkAcquire), (.worker, .wkPop), (.worker, .wkRelease), (.worker, .wkResolve)] ++
+  [(.worker, .wkAcquire), (.worker, .wkPop 7), (.worker, .wkRelease), (.worker, .wkResolve)] ++
   subNowait 2 9 3 .signal false ++ [(.worker, .wkResolve)]
 
 /-- … and on to quiescence -/
 def schedB : List (Tid × Act) :=
   schedA ++ [(.worker, .wkResolve), (.worker, .wkAll), (.worker, .wkNotify), (.worker, .wkFree),
-    (.worker, .wkAcquire), (.worker, .wkPop), (.worker, .wkRelease), (.worker, .wkResolve),
+    (.worker, .wkAcquire), (.worker, .wkPop 9), (.worker, .wkRelease), (.worker, .wkResolve),
     (.worker, .wkResolve), (.worker, .wkResolve), (.worker, .wkAll), (.worker, .wkNotify), (.worker, .wkFree),
     (.worker, .wkAcquire), (.worker, .wkWait)]
 
@@ -257,7 +257,7 @@ example : accepts gaEx [.begin 1 100 2 .wait .thread [0, 2], .gacall (.s 1) 100 
 /-- memcpy of ONE pointer: with a batch of three the resolver reads list[1] uninitialised. -/
 theorem orig_reads_uninitialised : ∃ s, Reach Cfg.orig gaEx s ∧ s.badRead = true := by
   let l := subNowait 1 7 3 .thread true ++
-    [(.worker, .wkAcquire), (.worker, .wkPop), (.worker, .wkRelease), (.worker, .wkResolve), (.worker, .wkResolve)]
+    [(.worker, .wkAcquire), (.worker, .wkPop 7), (.worker, .wkRelease), (.worker, .wkResolve), (.worker, .wkResolve)]
   exact ⟨(run Cfg.orig gaEx init l).getD init,
     run_reach' (l := l) (by decide +kernel), by decide +kernel⟩
 
